@@ -172,6 +172,9 @@ focus(struct initparser *p)
 	case TYPESTRUCT:
 	case TYPEUNION:
 		p->sub->u.mem = p->sub->type->u.structunion.members;
+		/* the built-in va_list structures have no members */
+		if (!p->sub->u.mem)
+			error(&tok.loc, "initializer for a member of a type without members");
 		t = p->sub->u.mem->type;
 		/* not 0 if unnamed bit-fields precede the first member */
 		off = p->sub->u.mem->offset;
